@@ -6,6 +6,7 @@ import (
 	"errors"
 	"fmt"
 	"reflect"
+	"sort"
 	"strings"
 	"time"
 
@@ -40,7 +41,7 @@ func init() {
 		},
 		Rule: "boundary: records of 2-3 kernel events (<=4 records each) interleaved in a taped merge order that keeps per-event order, EOE- and PROCTITLE-terminated groups, empty lines, fed to the real parseAuditLogs + reassembler + reassembler callback around a counting correlator; " +
 			"read-faults: audit streams for bound sessions through the real Read with one fault enumerated within each group of runs: malformed line at position p, write error at the k-th event, invalid login {pid 0, nil source, empty credential} at a taped point, " +
-			"unparsable PID in a LOGIN record, two failures in one run; non-trivial = records of different events were interleaved (boundary) or the fault fired before the end of the stream (faults); distinct = distinct (stream hash, fault, position, schedule hash)",
+			"unparsable PID in a LOGIN record, two failures in one run, a single transient write failure at the k-th event of a hold-queue flush; non-trivial = records of different events were interleaved (boundary) or the fault fired before the end of the stream (faults); distinct = distinct (stream hash, fault, position, schedule hash)",
 		Quick: 3000, Thorough: 120000,
 	})
 }
@@ -80,6 +81,7 @@ func scnC14(rc *RunCtx) {
 		lens[i] = len(s.Events)
 	}
 	idx := make([]int, n)
+	nsplit := 0
 	loginAfter := make([]int, n)
 	for i := range loginAfter {
 		loginAfter[i] = 0
@@ -92,11 +94,27 @@ func scnC14(rc *RunCtx) {
 			sshdTL = append(sshdTL, TLItem{AtMs: ms, Kind: "login", S: si})
 			ms += 20
 		}
-		auditTL = append(auditTL, TLItem{AtMs: ms, Kind: "event", S: si, E: idx[si]})
+		ev := w.Sessions[si].Events[idx[si]]
+		if ev.NRec >= 4 && t.Choose(4, "split.group") == 0 {
+			// the records of one kernel event arrive in two bursts 0.6-1.8 s apart (records of
+			// other events may fall in between); the reassembler waits up to 2 s for the rest
+			cut := 1 + t.Choose(ev.NRec-1, "split.at")
+			gap := 600 + t.Choose(1200, "split.gap")
+			auditTL = append(auditTL, TLItem{AtMs: ms, Kind: "part", S: si, E: idx[si], Lo: 0, Hi: cut})
+			auditTL = append(auditTL, TLItem{AtMs: ms + gap, Kind: "part", S: si, E: idx[si], Lo: cut, Hi: ev.NRec})
+			nsplit++
+		} else {
+			auditTL = append(auditTL, TLItem{AtMs: ms, Kind: "event", S: si, E: idx[si]})
+		}
 		idx[si]++
 		if t.Choose(4, "gap") == 0 {
 			ms += []int{1, 10, 300, 1500}[t.Choose(4, "gap.ms")]
 		}
+	}
+	sort.SliceStable(auditTL, func(i, j int) bool { return auditTL[i].AtMs < auditTL[j].AtMs })
+	if nsplit > 0 {
+		rc.Sim.Count("reassembler_group_split_in_time")
+		ms += 2000
 	}
 	for si := range w.Sessions {
 		if loginAfter[si] >= lens[si] {
@@ -240,9 +258,11 @@ func scnC15Boundary(rc *RunCtx) {
 	var evs []*KEvent
 	for i := 0; i < ne; i++ {
 		var e *KEvent
-		switch t.Choose(4, "kind") {
+		switch t.Choose(5, "kind") {
 		case 0:
 			e = k.UserMsg("USER_START", "55", 100+i, 1000, t.Choose(2, "ok") == 1, 0)
+		case 4:
+			e = k.AVC("55", 100+i, 1000)
 		default:
 			e = k.Exec("55", 100+i, 1000, cmds[t.Choose(len(cmds), "cmd")], t.Choose(3, "ok") != 0, t.Choose(4, "execve") != 0, t.Choose(2, "eoe") == 0)
 		}
@@ -351,7 +371,7 @@ func scnC15Boundary(rc *RunCtx) {
 
 var c15Faults = []string{"malformed-line", "malformed-line", "malformed-line", "write-error", "write-error", "write-error",
 	"invalid-login-pid0", "invalid-login-nil-source", "invalid-login-empty-cred", "bad-pid-in-login-record", "two-failures", "none",
-	"malformed-line", "write-error", "invalid-login-pid0", "two-failures"}
+	"malformed-line", "write-error", "flush-transient-write-error", "flush-transient-write-error"}
 
 func scnC15Faults(rc *RunCtx) {
 	t := rc.Spec
@@ -379,11 +399,14 @@ func scnC15Faults(rc *RunCtx) {
 	ap := &auditd.Auditd{Audits: audits, Logins: logins, EventW: auditevent.NewAuditEventWriter(rec), Health: health.NewHealth()}
 	res := &doneFlag{}
 	rc.Sim.Spawn("auditd.Read", func() { res.set(ap.Read(ctx)) })
-	// session bound before its first record (hold queue never used)
+	// session bound before its first record (hold queue never used), except for the fault that
+	// is about the hold-queue flush itself
 	bound := &doneFlag{}
-	rc.Sim.Spawn("world.login", func() { simrt.ChanSend(logins, MakeRUL(login, time.Now()), "world.login"); bound.set(nil) })
-	rc.Sim.Policy = simrt.PolicyRunToBlock
-	runToStepOrState(rc, func() bool { return bound.v }, -1, 500)
+	if fault != "flush-transient-write-error" {
+		rc.Sim.Spawn("world.login", func() { simrt.ChanSend(logins, MakeRUL(login, time.Now()), "world.login"); bound.set(nil) })
+		rc.Sim.Policy = simrt.PolicyRunToBlock
+		runToStepOrState(rc, func() bool { return bound.v }, -1, 500)
+	}
 	pipelinePolicy(rc)
 	pos := -1
 	badLine := ""
@@ -422,6 +445,19 @@ func scnC15Faults(rc *RunCtx) {
 	}
 	for _, l := range lines {
 		audits <- l + "\n"
+	}
+	if fault == "flush-transient-write-error" {
+		// every record is held; then the login arrives and exactly one write of the flush fails
+		runToStepOrState(rc, func() bool { return res.v || len(audits) == 0 }, -1, 3000)
+		quietFor(rc, 500*time.Millisecond)
+		rec.FailAt = 1 + t.Choose(len(evs)-1, "k")
+		rec.FailAll = false
+		wantEvents = rec.FailAt - 1
+		rc.Sim.Spawn("world.login", func() {
+			c0, c1 := simrt.Send(logins).V(MakeRUL(login, time.Now())), simrt.Recv(ctx.Done())
+			simrt.Select("world.login", false, c0, c1)
+			bound.set(nil)
+		})
 	}
 	var invalid *common.RemoteUserLogin
 	if strings.HasPrefix(fault, "invalid-login") {
@@ -474,7 +510,7 @@ func scnC15Faults(rc *RunCtx) {
 		}
 		return
 	}
-	if !returned && (fault == "write-error") && rec.Calls < rec.FailAt {
+	if !returned && (fault == "write-error" || fault == "flush-transient-write-error") && rec.Calls < rec.FailAt {
 		// the write that was to fail never happened: the failure did not occur in this run
 		rc.Sim.Count("c15.fault_not_fired")
 		rc.R.NonTrivial = false
@@ -496,7 +532,7 @@ func scnC15Faults(rc *RunCtx) {
 			rc.Fail("C15", "error-does-not-identify-line", "the error for the unparsable line %q does not contain it: %q", badLine, msg)
 			return
 		}
-	case "write-error":
+	case "write-error", "flush-transient-write-error":
 		var ee *encodeErr
 		if !errors.As(res.err, &ee) {
 			rc.Fail("C15", "wrong-error", "a write failure at event %d stopped Read with %q, which does not wrap the write error", rec.FailAt, msg)
